@@ -31,13 +31,13 @@ type scriptW struct {
 func (w *scriptW) WriteAt(p []byte, off int64) (int, error) {
 	k := len(p)
 	var err error
-	if w.fail {
+	if w.fail && len(p) > 0 { // a call that offers no bytes is never failed: whether it is made at all is left open
 		if w.acc < k {
 			k = w.acc
 		}
 		err = errInj
 	}
-	w.calls = append(w.calls, J{"off": off, "p": bytesJ(p), "k": k, "e": w.fail})
+	w.calls = append(w.calls, J{"off": off, "p": bytesJ(p), "k": k, "e": w.fail && len(p) > 0})
 	return k, err
 }
 
